@@ -13,7 +13,8 @@ Inductive sres := SOk (l : list term) (rest : bytes) | SErr (k : dkind).
 
 Record dcfg := {
   d_arms : list (N * N);
-  d_cache : list (N * bytes);                       (* AtomCache: index -> atom name *)
+  d_cache : list (N * bytes);                       (* AtomCache slots: segment*256 + internal index -> atom name *)
+  d_refs : list bytes;                              (* the current header's atom cache references, in header order *)
   d_inflate : bytes -> option (bytes * N);
   d_float_text : bytes -> option N;
   d_kcmp : term -> term -> comparison;
@@ -292,7 +293,12 @@ Section Parse.
             end
     | 31 => match rd 1 r0 with
             | None => PErr KEof
-            | Some (i, r) => match assocb i (d_cache cfg) with Some a => POk (TAtom a) r | None => PErr KTag end
+            | Some (i, r) =>
+                (* resolve_ref: by header position when a header was seen, else segment 0 directly *)
+                match d_refs cfg with
+                | [] => match assocb i (d_cache cfg) with Some a => POk (TAtom a) r | None => PErr KTag end
+                | refs => match nth_error refs (N.to_nat i) with Some a => POk (TAtom a) r | None => PErr KTag end
+                end
             end
     | 32 => atom_of (self r0) (fun node r =>
               match rd 4 r with None => PErr KEof | Some (id, r1) =>
